@@ -181,12 +181,16 @@ structure Service (V P : Type) where
   typ : String
   chars : List (Char V P)
   primary : Option Bool
+  /-- `linked_services`: the linked service objects, in the order they were linked -/
+  linked : List Nat := []
 
 structure SvcRep (V P : Type) where
   iid : Option Nat
   typ : String
   chars : List (CharRep V P)
   primary : Option Bool
+  /-- the `linked` member: the current iids of the linked services (`[]` = no such member) -/
+  linked : List (Option Nat) := []
   deriving DecidableEq
 
 /-- `Accessory` (a bridged one, or the top-level one) -/
@@ -232,7 +236,8 @@ def Service.toHap (cf : CharFn V P) (iids : Nat → Option Nat) (incl : Bool) (g
   match traverse (fun c => cf c (iids c.obj) incl (g c.obj)) sv.chars with
   | (none, cs) => (none, { sv with chars := cs })
   | (some rs, cs) =>
-    (some { iid := iids sv.obj, typ := sv.typ, chars := rs, primary := sv.primary }, { sv with chars := cs })
+    (some { iid := iids sv.obj, typ := sv.typ, chars := rs, primary := sv.primary,
+            linked := sv.linked.map iids }, { sv with chars := cs })
 
 /-- `Accessory.to_HAP` (not cached) -/
 def Accessory.toHap (cf : CharFn V P) (incl : Bool) (g : Nat → Option V) (a : Accessory V P) :
@@ -576,6 +581,15 @@ variable {V P : Type} [PropsLike P] [Inhabited V]
 def Accessory.setPrimary (a : Accessory V P) (typ : String) : Accessory V P :=
   { a with services := a.services.map (fun sv => { sv with primary := some (sv.typ == typ) }) }
 
+/-- `svc.add_linked_service(other)` for two services of this accessory: `other` is appended
+    unless a service with the same iid (under this accessory's manager) is already linked -/
+def Accessory.addLinked (a : Accessory V P) (svc other : Nat) : Accessory V P :=
+  { a with services := a.services.map (fun sv =>
+      if sv.obj = svc then
+        if sv.linked.any (fun l => a.iidm.getIid l == a.iidm.getIid other) then sv
+        else { sv with linked := sv.linked ++ [other] }
+      else sv) }
+
 /-- apply `f` to the accessory a script names (1 = top level, else the bridge's dict key) -/
 def Db.modAcc (s : Db V P) (aid : Nat) (f : Accessory V P → Accessory V P) : Db V P :=
   if aid = STANDALONE_AID then { s with main := f s.main }
@@ -592,6 +606,8 @@ inductive Op11 (V P : Type) where
   | setAvailable (aid : Nat) (b : Bool)
   /-- `acc.set_primary_service(svc)` with a service of type `typ` -/
   | setPrimary (aid : Nat) (typ : String)
+  /-- `svc.add_linked_service(other)`, both services of accessory `aid` -/
+  | addLinked (aid : Nat) (svc other : Nat)
   /-- GET /accessories (`get_accessories(include_value)`) -/
   | readAll (incl : Bool) (g : Nat → Option V)
   /-- GET /characteristics?id=… -/
@@ -611,6 +627,7 @@ def Db.step11 (s : Db V P) : Op11 V P → Db V P × Out11 V P
   | .setGetter o b => (s.modChar o (·.setGetter b), .none)
   | .setAvailable aid b => (s.modAcc aid (fun a => { a with available := b }), .none)
   | .setPrimary aid typ => (s.modAcc aid (·.setPrimary typ), .none)
+  | .addLinked aid svc other => (s.modAcc aid (·.addLinked svc other), .none)
   | .readAll incl g => match s.renderCached incl g with | (r, s') => (s', .accessories r)
   | .readChars ids g => match s.handleGet ids g with | (r, s') => (s', .chars r)
 
